@@ -672,4 +672,7 @@ void run_C16(void) {
     const int cfg = ntt ? ((p / 5) % 4 == 3 ? DISP_AVX2_ONLY : DISP_NATIVE) : CFG[(p / 5) % 5];
     program_case(N, ntt, cfg, p, len);
   }
+  // modules / tables created, used and destroyed in random order, several alive at once
+  for (unsigned rep = 0; rep < (G.thorough ? 240u : 24u); rep++)
+    ops_lifecycle_case("C16 objects", LKM_MOD_NTT120 | LKM_MOD_FFT64, (rep % 4) == 3 ? DISP_GENERIC : DISP_NATIVE, 160, 0, rep, "lifecycle_uses");
 }
